@@ -1196,7 +1196,86 @@ def r7(ctx):
                f"datagram is re-emitted from the changed field")
 
 
+# --------------------------------------------------------------------------- R8 / R9
+
+SER_LIB = "hippolyzer/lib/base/serialization.py"
+
+
+def r8(ctx):
+    repo = ctx.repo
+    ctx.rule("C02.R8", "read-only renderings do not alias the message: Message.to_dict() builds fresh per-block dicts - "
+                       "Block.vars itself is never handed out (consumers such as the LLSD serializer rewrite the dicts "
+                       "they are given)")
+    td = repo.fn("Message.to_dict", MSG)
+    from ..core import parent
+    bare = []
+    uses = 0
+    for n in walk(td.node, into_defs=True):
+        if isinstance(n, ast.Attribute) and n.attr in ("vars", "_blocks") and isinstance(n.ctx, ast.Load):
+            uses += 1
+            p = parent(n)
+            copied = False
+            if isinstance(p, ast.Call) and n in p.args and ap(p.func) in ("dict", "copy.copy", "copy.deepcopy", "OrderedDict", "list", "tuple"):
+                copied = True
+            elif isinstance(p, ast.Attribute) and p.value is n and p.attr in ("copy", "items", "keys", "values", "get"):
+                copied = True             # a method of the dict: a copy / a view that is iterated / one value
+            elif isinstance(p, ast.Subscript) and p.value is n:
+                copied = True
+            elif isinstance(p, ast.Dict) and any(k is None and v is n for k, v in zip(p.keys, p.values)):
+                copied = True             # {**block.vars}
+            elif isinstance(p, (ast.For, ast.comprehension)) and p.iter is n:
+                copied = True             # only iterated
+            elif isinstance(p, ast.Compare):
+                copied = True
+            if not copied:
+                bare.append(n)
+    ctx.stats["C02.R8.internal dict uses in to_dict"] = uses
+    ctx.ob("C02.R8", "Message.to_dict: per-block dicts are copies, not Block.vars / _blocks themselves", not bare, td.where,
+           "; ".join(f"`{norm(parent(n))}`" for n in bare) + " hands the message's own variable dict to the caller: rendering "
+           "the message (LLSD / event-queue form rewrites U32/U64/IP values in place) changes what is re-encoded afterwards"
+           if bare else "")
+
+
+def r9(ctx):
+    repo = ctx.repo
+    ctx.rule("C02.R9", "a read past the end of the body is an error, not a short result: BufferReader.read_bytes refuses when "
+                       "position + requested > length (compared on the unclamped sum), so a truncated body fails the parse "
+                       "and the raw body is put back instead of being re-encoded with recomputed lengths")
+    from .common import linform
+    rb = repo.fn("BufferReader.read_bytes", SER_LIB)
+    params = [a.arg for a in rb.node.args.args][1:]
+    ctx.require(bool(params), "BufferReader.read_bytes lost its size parameter")
+    n = params[0]
+    found = []
+    for r in [x for x in walk(rb.node) if isinstance(x, ast.Raise)]:
+        for e, pol in facts(r, rb.node):
+            if not (isinstance(e, ast.Compare) and len(e.ops) == 1):
+                continue
+            l = linform(repo, rb.module, rb.node, e.left)
+            rr = linform(repo, rb.module, rb.node, e.comparators[0])
+            if l is None or rr is None:
+                continue
+            diff = dict(l)
+            for k, c in rr.items():
+                diff[k] = diff.get(k, 0) - c
+            diff = {k: c for k, c in diff.items() if c != 0}
+            op = type(e.ops[0])
+            if not pol:
+                op = {ast.Gt: ast.LtE, ast.GtE: ast.Lt, ast.Lt: ast.GtE, ast.LtE: ast.Gt}.get(op)
+            sign = 1 if op in (ast.Gt, ast.GtE) else -1 if op in (ast.Lt, ast.LtE) else 0
+            want_a = {n: sign, "self._pos": sign, "self._len": -sign}
+            want_b = {n: sign, "len()": -sign}
+            core_ = {k: c for k, c in diff.items() if k != 1}
+            if sign and core_ in (want_a, want_b):
+                found.append(e)
+    ctx.ob("C02.R9", "BufferReader.read_bytes: refuses when position + requested exceeds the length", len(found) >= 1, rb.where,
+           "no raise is conditioned on `self._pos + <requested> > self._len` over the unclamped values (a clamped / "
+           "min()-ed end position makes the check vacuous): short reads succeed silently")
+
+
 def run(ctx):
+    r9(ctx)
+    r8(ctx)
     r7(ctx)
     r6(ctx)
     r1(ctx)
